@@ -224,43 +224,62 @@ impl C09 {
                         }
                     }
                 };
-                if vtoks != base_toks {
-                    let d = first_diff(&vtoks, &base_toks);
-                    ctx.report(&vt.case, None, &vt.o, "tokens", format!("{} [{}, k={}]: token sequence differs from {} at token {}: {:?} vs {:?}", g.name, e.desc, k, what, d.0, d.1, d.2));
-                    continue;
+                let edit = if e.kind == EditKind::Neutral && k == 1 { Some((e.at, e.removed, e.added)) } else { None };
+                if let Some((clause, detail)) = compare_pair(base_src, &e.text, edit, &base_toks, &base_run.o, &vtoks, &vr.o, what) {
+                    let mut c = if clause == "tokens" { vt.case.clone() } else { vr.case.clone() };
+                    c.companion = Some(base_src.to_string());
+                    c.companion_edit = edit;
+                    let o = if clause == "tokens" { &vt.o } else { &vr.o };
+                    ctx.report(&c, None, o, clause, format!("{} [{}, k={}]: {}", g.name, e.desc, k, detail));
                 }
-                // behaviour
-                if vr.o.class != base_run.o.class || vr.o.stdout != base_run.o.stdout {
-                    ctx.report(&vr.case, None, &vr.o, "behaviour", format!("{} [{}, k={}]: {:?} printing {:?}; {} gives {:?} printing {:?}", g.name, e.desc, k, vr.o.class, vr.o.out_str(), what, base_run.o.class, base_run.o.out_str()));
-                    continue;
-                }
-                if vr.o.class == Class::Err {
-                    let (vp, vtxt) = strip_positions(&vr.o.msg);
-                    let (bp, btxt) = strip_positions(&base_run.o.msg);
-                    if vtxt != btxt {
-                        ctx.report(&vr.case, None, &vr.o, "message", format!("{} [{}, k={}]: message {:?} differs from {:?}", g.name, e.desc, k, vr.o.msg, base_run.o.msg));
-                        continue;
-                    }
-                    // positions move with the text (only for edits of the original)
-                    if e.kind == EditKind::Neutral && vp.len() == bp.len() && k == 1 {
-                        for (pv, pb) in vp.iter().zip(bp.iter()) {
-                            if let Some(off) = pos_to_off(base_src, *pb) {
-                                if let Some(noff) = e.map_off(off) {
-                                    let want = off_to_pos(&e.text, noff);
-                                    // a position inside an interpolation slot follows an open convention
-                                    if *pv != want && !base_run.o.msg.contains("interpolat") && !in_interp(base_src, off) {
-                                        ctx.report(&vr.case, None, &vr.o, "moved-position", format!("{} [{}]: the diagnostic position {}:{} of the original must move to {}:{}, got {}:{} ({})", g.name, e.desc, pb.0, pb.1, want.0, want.1, pv.0, pv.1, vr.o.msg.lines().next().unwrap_or("")));
-                                        break;
-                                    }
-                                }
+            }
+        }
+        Ok(())
+    }
+}
+
+/// the law between a program and its layout variant (or the `;` variant)
+fn compare_pair(
+    base_src: &str,
+    var_src: &str,
+    edit: Option<(usize, usize, usize)>,
+    base_toks: &[String],
+    base_run: &Outcome,
+    vtoks: &[String],
+    vrun: &Outcome,
+    what: &str,
+) -> Option<(&'static str, String)> {
+    if vtoks != base_toks {
+        let d = first_diff(vtoks, base_toks);
+        return Some(("tokens", format!("token sequence differs from {} at token {}: {:?} vs {:?}", what, d.0, d.1, d.2)));
+    }
+    if vrun.class != base_run.class || vrun.stdout != base_run.stdout {
+        return Some(("behaviour", format!("{:?} printing {:?}; {} gives {:?} printing {:?}", vrun.class, vrun.out_str(), what, base_run.class, base_run.out_str())));
+    }
+    if vrun.class == Class::Err {
+        let (vp, vtxt) = strip_positions(&vrun.msg);
+        let (bp, btxt) = strip_positions(&base_run.msg);
+        if vtxt != btxt {
+            return Some(("message", format!("message {:?} differs from {:?}", vrun.msg, base_run.msg)));
+        }
+        if let Some((at, removed, added)) = edit {
+            if vp.len() == bp.len() {
+                for (pv, pb) in vp.iter().zip(bp.iter()) {
+                    if let Some(off) = pos_to_off(base_src, *pb) {
+                        let noff = if off < at { Some(off) } else if off >= at + removed { Some(off - removed + added) } else { None };
+                        if let Some(noff) = noff {
+                            let want = off_to_pos(var_src, noff);
+                            // a position inside an interpolation slot follows an open convention
+                            if *pv != want && !base_run.msg.contains("interpolat") && !in_interp(base_src, off) {
+                                return Some(("moved-position", format!("the diagnostic position {}:{} of the original must move to {}:{}, got {}:{} ({})", pb.0, pb.1, want.0, want.1, pv.0, pv.1, vrun.msg.lines().next().unwrap_or(""))));
                             }
                         }
                     }
                 }
             }
         }
-        Ok(())
     }
+    None
 }
 
 fn in_interp(src: &str, off: usize) -> bool {
@@ -352,6 +371,28 @@ impl Check for C09 {
                    "continuation_tokens_broken_after": seen_cont.len()}),
         );
         Ok(())
+    }
+
+    fn replay_group(&self, c: &Case, pool: &crate::subject::Pool) -> Result<Option<Verdict>, MachineryError> {
+        let base = match &c.companion {
+            Some(b) => b.clone(),
+            None => return Ok(None),
+        };
+        let reqs = [
+            crate::subject::Req { mode: Mode::Tokens, label: "case.sd", src: &base },
+            crate::subject::Req { mode: Mode::Run, label: "case.sd", src: &base },
+            crate::subject::Req { mode: Mode::Tokens, label: "case.sd", src: &c.src },
+            crate::subject::Req { mode: Mode::Run, label: "case.sd", src: &c.src },
+        ];
+        let o = pool.run(&reqs)?;
+        println!("companion: {:?} -> {:?} {:?} {:?}", base, o[1].class, o[1].out_str(), o[1].msg);
+        println!("variant:   {:?} -> {:?} {:?} {:?}", c.src, o[3].class, o[3].out_str(), o[3].msg);
+        let bt = token_texts(&o[0].out_str());
+        let vt = token_texts(&o[2].out_str());
+        Ok(Some(match compare_pair(&base, &c.src, c.companion_edit, &bt, &o[1], &vt, &o[3], "the companion program") {
+            Some((clause, detail)) => viol(clause, detail),
+            None => Verdict::Pass,
+        }))
     }
 
     fn oracle(&self, c: &Case, r: &RefOutcome, o: &Outcome) -> Verdict {
